@@ -57,7 +57,7 @@ ASSUMPTIONS = [
     "gradient-based nlopt solvers cannot run on the gradient-free fitting problem and are recorded as skipped",
 ]
 REQUIRED_COUNTERS = [
-    "calibrations", "logged_evaluations", "evaluations_bounds_checked", "champions_checked", "best_checked",
+    "vector_parameters_declared_as_tuple", "calibrations", "logged_evaluations", "evaluations_bounds_checked", "champions_checked", "best_checked",
     "reported_found_in_log", "direct_problems", "direct_fitness_calls", "direct_corner_calls", "bounds_vectors_checked",
     "resimulations_checked", "layouts_vector_before_scalar", "layouts_log_after_vector", "layouts_per_component_bounds",
     "layouts_logarithmic", "layouts_detector_field", "layouts_keys_not_sorted", "algo_sade", "algo_sga", "algo_nlopt",
@@ -431,14 +431,24 @@ def write_target(rec, case: dict, tag: str) -> list:
     return paths
 
 
-def make_parameter_values(case: dict) -> list:
+def make_parameter_values(case: dict, rec=None) -> list:
+    import json
+    import zlib
+
     from pyxel.observation import ParameterValues
 
     pv = []
     for p in case["params"]:
         b = p["bounds"]
         boundaries = [tuple(x) for x in b] if isinstance(b[0], (list, tuple)) else tuple(b)
-        pv.append(ParameterValues(key=p["key"], values=["_"] * p["n"] if p["n"] else "_",
+        placeholders = ["_"] * p["n"] if p["n"] else "_"
+        # the Python API takes any sequence of placeholders: a third of the vector parameters is declared
+        # as a tuple (chosen by a digest of the declaration, so that a replay makes the same choice)
+        if p["n"] and zlib.crc32(json.dumps(p, sort_keys=True, default=str).encode()) % 3 == 0:
+            placeholders = tuple(placeholders)
+            if rec is not None:
+                rec.count("vector_parameters_declared_as_tuple")
+        pv.append(ParameterValues(key=p["key"], values=placeholders,
                                   logarithmic=p["log"], boundaries=boundaries))
     return pv
 
@@ -474,7 +484,7 @@ def make_processor_parts(case: dict):
 
 
 def make_objects(rec, case: dict, tag: str):
-    cal = make_calibration(rec, case, tag, make_parameter_values(case))
+    cal = make_calibration(rec, case, tag, make_parameter_values(case, rec))
     detector, pipeline = make_processor_parts(case)
     return cal, detector, pipeline
 
@@ -777,7 +787,7 @@ def count_history(rec, case: dict, step: int, use: str) -> None:
 def run_calibration_case(rec, index, case: dict) -> None:
     nontrivial = count_layout(rec, case)
     try:
-        pv = make_parameter_values(case)
+        pv = make_parameter_values(case, rec)
         cal = make_calibration(rec, case, f"cal{index}", pv)
         detector, pipeline = make_processor_parts(case)
     except Exception as exc:  # noqa: BLE001
@@ -876,7 +886,7 @@ def run_direct_case(rec, index, case: dict, tier: str, rng) -> None:
     try:
         # every problem built from the configuration objects (fresh, then used before) must have the declared box;
         # the decision vectors below are evaluated on the last one
-        pv = make_parameter_values(case)
+        pv = make_parameter_values(case, rec)
         cal = make_calibration(rec, case, f"dir{index}", pv)
         detector, pipeline = make_processor_parts(case)
         for step, (use, share) in enumerate(uses_of(case, "problem")):
